@@ -77,7 +77,17 @@ M = [
  ("c14_reply_on_own_channel", "C14", "cor.go", "\t\tcor.doCloseSafe(func() {\n\t\t\tcor.resultCh <- out\n\t\t})", "\t\tcor.doCloseSafe(func() {\n\t\t\tcorSelf.resultCh <- out\n\t\t})"),
  ("c14_op_wrong_caller", "C14", "cor.go", "\t\t\tcorSelf.opCh <- &CorOp[T]{cor: cor, val: in}", "\t\t\tif len(corSelf.opCh) > 2 {\n\t\t\t\tcor = (<-corSelf.opCh).cor\n\t\t\t}\n\t\t\tcorSelf.opCh <- &CorOp[T]{cor: cor, val: in}"),
  ("c14_yieldfrom_skips_wait_when_buffered", "C14", "cor.go", "\tresult, _ = <-corSelf.resultCh\n", "\tif len(target.opCh) >= 4 {\n\t\treturn result\n\t}\n\tresult, _ = <-corSelf.resultCh\n"),
+ ("c13_timeout_returns_nil_error", "C13", "actor.go", "\t\treturn result, ErrActorAskTimeout\n\t}\n\n\treturn result, nil", "\t\treturn result, nil\n\t}\n\n\treturn result, nil"),
+ ("c13_late_reply_blocks", "C13", "actor.go", "\tcase askSelf.ch <- response:\n\tcase <-askSelf.timeoutCh:\n", "\tcase askSelf.ch <- response:\n"),
+ ("c13_close_on_timeout_again", "C13", "actor.go", "\t\tverifAt(\"ask.timeout.fired\")\n", "\t\tverifAt(\"ask.timeout.fired\")\n\t\tdefer close(ch)\n"),
+ ("c13_shared_reply_channel", "C13", "actor.go", "\treturn AskNewByOptionsGenerics[T, R](message, make(chan R))", "\tch, _ := askSharedCh.LoadOrStore(fmt.Sprintf(\"%T\", *new(R)), make(chan R, 64))\n\treturn AskNewByOptionsGenerics[T, R](message, ch.(chan R))"),
 ]
+
+EXTRA = {
+ "c13_shared_reply_channel": ("actor.go", "var ErrActorAskTimeout = fmt.Errorf(\"ErrActorAskTimeout\")", "var ErrActorAskTimeout = fmt.Errorf(\"ErrActorAskTimeout\")\n\nvar askSharedCh sync.Map"),
+ "c13_shared_reply_channel#2": ("actor.go", "\tcase result = <-ch:\n\t\tclose(ch)", "\tcase result = <-ch:"),
+ "c13_shared_reply_channel#3": ("actor.go", "\tch := askSelf.AskChannel(target)\n\tdefer close(ch)\n\t// var err error", "\tch := askSelf.AskChannel(target)\n\t// var err error"),
+}
 
 
 def run(*a, **k):
@@ -98,6 +108,12 @@ def main():
         if s.count(old) != 1:
             print(f"!! {name}: anchor occurs {s.count(old)} times in {f}"); continue
         open(path, "w").write(s.replace(old, new))
+        for ek, (ef, eold, enew) in EXTRA.items():
+            if ek.split("#")[0] == name:
+                es = open(os.path.join("/repo", ef)).read()
+                if es.count(eold) != 1:
+                    print(f"!! {name}: extra anchor {ek} occurs {es.count(eold)} times")
+                open(os.path.join("/repo", ef), "w").write(es.replace(eold, enew))
         b = run("go", "build", "./...", cwd="/repo", env=env)
         v = run("go", "vet", "-vettool=/bin/true", "./...", cwd="/repo", env=env) if False else None
         diff = run("git", "-C", "/repo", "diff").stdout
